@@ -37,6 +37,31 @@ def transforms(ctx, g, m, k):
     return out
 
 
+# second K1 witness: all three actions of state 0 are truly reach-optimal (value 1/2); the in-place sweep leaves
+# 0.499994 / 0.499995 in one numbering and equal 6-digit roundings in the other, so the reachability strategy,
+# hence the conditioned game and its rewards (42 vs 54), depend on the numbering
+A2 = {'rewards': [1.6666666666666667, 3, 0, 0, 2, 2, 1],
+      'players': [P1, P2, PR, PR, PR, PR, P2],
+      'transition_list': [[('beta', 6), ('d', 4), ('a', 6)], [('b', 4), ('a', 4)], [(1, 2)], [(1, 3)],
+                          [(0.5, 5), (0.25, 0), (0.125, 3), (0.125, 6)], [(0.25, 1), (0.25, 2), (0.5, 6)], [('b', 1), ('a', 1)]],
+      'final_states': [2]}
+B2 = {'rewards': [1.6666666666666667, 2, 0, 3, 2, 0, 1],
+      'players': [P1, PR, PR, P2, PR, PR, P2],
+      'transition_list': [[('p', 6), ('r', 6), ('x', 1)], [(0.25, 0), (0.125, 6), (0.5, 4), (0.125, 2)], [(1, 2)],
+                          [('r', 1), ('right', 1)], [(0.25, 5), (0.5, 6), (0.25, 3)], [(1, 5)], [('right', 3), ('r', 3)]],
+      'final_states': [5]}
+
+
+def same_strategies(r0, r1, perm, acts, idx):
+    for s in range(len(perm)):
+        a0, a1 = r0.out[idx][s], r1.out[idx][perm[s]]
+        if (a0 is None) != (a1 is None):
+            return False
+        if a0 is not None and sorted(acts.get(a, a) for a in a0) != sorted(a1):
+            return False
+    return True
+
+
 def compare(ctx, r0, r1, perm, acts, guard):
     inp = dict(r0.inp(), transformed=enc(r1.game), transformed_repr=repr(r1.game))
     if r0.ok != r1.ok or (not r0.ok and r0.describe() != r1.describe()):
@@ -47,11 +72,17 @@ def compare(ctx, r0, r1, perm, acts, guard):
     tolp = 1e-12 if guard == "exact" else 1e-4
     tolr = 1e-9 if guard == "exact" else 1e-4
     n = len(perm)
+    # Outside the exact family a true tie between Player-1 actions may be broken differently in the two numberings
+    # (K1: the reach loop's error exceeds the 6-digit rounding); the conditioned games then differ legitimately in
+    # the sense of K1, so rewards are compared only when the reported reachability strategies correspond.
+    rewards_comparable = guard == "exact" or same_strategies(r0, r1, perm, acts, 1)
+    if not rewards_comparable:
+        ctx.count("tie-sensitive (rewards not compared)")
     for s in range(n):
         t = perm[s]
         if abs(r0.out[3][s] - r1.out[3][t]) > tolp:
             ctx.violation("probability of state %d changes under renaming: %r vs %r" % (s, r0.out[3][s], r1.out[3][t]), inp)
-        if abs(r0.out[2][s] - r1.out[2][t]) > tolr * (1 + abs(r0.out[2][s])):
+        if rewards_comparable and abs(r0.out[2][s] - r1.out[2][t]) > tolr * (1 + abs(r0.out[2][s])):
             ctx.violation("expected reward of state %d changes under renaming: %r vs %r" % (s, r0.out[2][s], r1.out[2][t]), inp)
         if guard != "exact":
             continue
@@ -105,6 +136,20 @@ def run(ctx):
         for mode in (0, 1):
             compare(ctx, recs[2 * i0 + mode], recs[2 * i1 + mode], perm, acts, guard)
     known_k1(ctx)
+    known_k1b(ctx)
+
+
+def known_k1b(ctx):
+    res = impl.run_cases([dict(op="solve", game=enc(A2), prune=True), dict(op="solve", game=enc(B2), prune=True)], tag="c13k")
+    if "ok" in res[0] and "ok" in res[1]:
+        x, y = dec(res[0]["ok"])[2][0], dec(res[1]["ok"])[2][0]
+        if abs(x - y) > 1e-3:
+            what = ("a 7-state stopping game whose initial state has three truly reach-optimal actions reports expected reward %r, "
+                    "its renaming %r: the tie is broken differently because the reach values are only approximately converged" % (x, y))
+            if any(k.get("id") == "K1-C13b" for k in ctx.known_witnesses()):
+                ctx.known_hits.append(("K1-C13b", what))
+            else:
+                ctx.violation(what, dict(game=enc(A2), transformed=enc(B2), prune=True, op="solve"))
 
 
 deep_search = run
